@@ -73,9 +73,6 @@ Definition is_zero (e : ev) : bool := match e with ZeroGrad => true | _ => false
 Definition is_bwd (e : ev) : bool := match e with Backward => true | _ => false end.
 Definition is_fwd (e : ev) : bool := match e with Forward => true | _ => false end.
 
-Definition opt_step (p : ev -> bool) : Prop :=
-  p Step = p ZeroGrad \/ True.
-
 (* p counts exactly one event of each training batch and nothing else *)
 Definition train_only (p : ev -> bool) : Prop :=
   (forall c i, countb p (train_batch c i) = 1) /\
